@@ -541,10 +541,25 @@ def equal_up_to_renaming(got, want, max_names=3, canon=None):
     g, w = sorted(got), sorted(want)
     if g == w:
         return True
-    ig = set(_IDENT.findall(" ".join(g)))
-    iw = set(_IDENT.findall(" ".join(w)))
+    ig = set(_IDENT.findall(re.sub(r'"[^"]*"', '""', " ".join(g))))
+    iw = set(_IDENT.findall(re.sub(r'"[^"]*"', '""', " ".join(w))))
     og, ow = sorted(ig - iw), sorted(iw - ig)
     if not og or len(og) != len(ow) or len(og) > max_names:
+        return False
+    # only FIELD names are renameable: an identifier that (also) occurs as a function / module / type name - `unicode::ident()` for
+    # `ascii::ident()` - is a different callee, not a renamed field
+    fieldish = re.compile(r"(?<=\.)[A-Za-z_][A-Za-z_0-9]*(?![A-Za-z_0-9]*[(:]{1}[:(]?)|[A-Za-z_][A-Za-z_0-9]*(?=: )")
+
+    def only_fields(names, text):
+        text = re.sub(r'"[^"]*"', '""', text)          # words inside string literals are not identifiers
+        f_ = set(fieldish.findall(text))
+        for n_ in names:
+            occ = len(re.findall(r"(?<![A-Za-z_0-9])%s(?![A-Za-z_0-9])" % re.escape(n_), text))
+            as_field = len(re.findall(r"(?:(?<=\.)%s(?![A-Za-z_0-9(:])|(?<![A-Za-z_0-9.])%s(?=: ))" % (re.escape(n_), re.escape(n_)), text))
+            if n_ not in f_ or occ != as_field:
+                return False
+        return True
+    if not only_fields(og, " ".join(g)) or not only_fields(ow, " ".join(w)):
         return False
     for perm in itertools.permutations(ow):
         ren = dict(zip(og, perm))
